@@ -32,7 +32,8 @@ EffVals(r) == LET v == Live(r.vals) IN IF r.au THEN v ELSE SelectSeq(v, LAMBDA x
 CandRules(r) == {r.map.rules[i] : i \in Candidates(r.map.rules, r.ep, EffVals(r))}
 HasMulti(x) == \E i \in 1..Len(x.segs) : x.segs[i].k = "var" /\ x.segs[i].more # <<>>
 HasRange(x) == \E i \in 1..Len(AllVars(x)) : AllVars(x)[i].conv.hasmin \/ AllVars(x)[i].conv.hasmax
-Feature(r) == IF \E x \in CandRules(r) : HasPlaceholderDefault(x) THEN "Def"
+Feature(r) == IF r.map.dsub # <<>> THEN "Sub"
+              ELSE IF \E x \in CandRules(r) : HasPlaceholderDefault(x) THEN "Def"
               ELSE IF \E x \in CandRules(r) : x.dsegs # <<>> THEN "Dom"
               ELSE IF \E x \in CandRules(r) : HasMulti(x) THEN "Multi"
               ELSE IF r.map.sort # 0 \/ ~r.au \/ Len(Live(r.vals)) # Len(r.vals) THEN "Qry"
@@ -71,7 +72,8 @@ JudgeRT0(r) ==
 JudgeRT(r) == LET c == JudgeRT0(r) IN IF c \in {"ok", "HarnessDeliver"} THEN c ELSE Feature(r) \o c
 
 DomOfBind(m, b) == IF m.host_matching THEN b.server ELSE b.sub
-ConvFeature(r) == IF \E i \in 1..Len(r.map.rules) : HasPlaceholderDefault(r.map.rules[i]) THEN "Def"
+ConvFeature(r) == IF r.map.dsub # <<>> THEN "Sub"
+                  ELSE IF \E i \in 1..Len(r.map.rules) : HasPlaceholderDefault(r.map.rules[i]) THEN "Def"
                   ELSE IF \E i \in 1..Len(r.map.rules) : r.map.rules[i].dsegs # <<>> THEN "Dom"
                   ELSE IF \E i \in 1..Len(r.map.rules) : HasMulti(r.map.rules[i]) THEN "Multi"
                   ELSE IF \E i \in 1..Len(r.map.rules) : HasRange(r.map.rules[i]) THEN "Opt" ELSE ""
@@ -115,7 +117,8 @@ Drift(r) == CASE r.op = "rt" -> DriftRT(r) [] r.op = "conv" -> DriftConv(r) [] O
 
 Init == l = 1
 Next == /\ l <= Len(Lines)
-        /\ LET r == Lines[l] v == Verdict(r) d == Drift(r) IN
+        /\ LET r == [Lines[l] EXCEPT !.map = NormMap(Lines[l].map), !.bind = NormBind(Lines[l].map, Lines[l].bind)]
+               v == Verdict(r) d == Drift(r) IN
            /\ IF v = "ok" THEN TRUE ELSE PrintT(ToJson([reject |-> 1, t |-> r.t, i |-> r.i, clause |-> v]))
            /\ IF d = "ok" THEN TRUE ELSE PrintT(ToJson([drift |-> 1, t |-> r.t, i |-> r.i, what |-> d]))
         /\ l' = l + 1
